@@ -392,3 +392,33 @@ impl<'a> core::iter::Extend<&'a (f64, f64)> for WeightedMeanWithError {
         }
     }
 }
+
+#[cfg(feature = "verif-hooks")]
+#[doc(hidden)]
+impl WeightedMean {
+    pub fn __verif_from_parts(weight_sum: f64, weighted_avg: f64) -> WeightedMean {
+        WeightedMean { weight_sum, weighted_avg }
+    }
+    pub fn __verif_parts(&self) -> (f64, f64) {
+        (self.weight_sum, self.weighted_avg)
+    }
+}
+
+#[cfg(feature = "verif-hooks")]
+#[doc(hidden)]
+impl WeightedMeanWithError {
+    pub fn __verif_from_parts(
+        weight_sum_sq: f64,
+        weighted: (f64, f64),
+        unweighted: (f64, u64, f64),
+    ) -> WeightedMeanWithError {
+        WeightedMeanWithError {
+            weight_sum_sq,
+            weighted_avg: WeightedMean::__verif_from_parts(weighted.0, weighted.1),
+            unweighted_avg: MeanWithError::__verif_from_parts(unweighted.0, unweighted.1, unweighted.2),
+        }
+    }
+    pub fn __verif_parts(&self) -> (f64, (f64, f64), (f64, u64, f64)) {
+        (self.weight_sum_sq, self.weighted_avg.__verif_parts(), self.unweighted_avg.__verif_parts())
+    }
+}
